@@ -11,7 +11,11 @@ MANIFEST = {
             "capacities 0..4 in random traces; transition tour + random histories replayed on the real components. Template "
             "level: in every step of every template run the recorded best only improves, changes only in the update "
             "component, follows the strict rule and covers its source population (Run.tla clause C07), and at the end of "
-            "every run the reported best equals the minimum the instrumented objective function ever returned.",
+            "every run the reported best equals the minimum the instrumented objective function ever returned. The two known "
+            "deviations are decided inside Run.tla; the ILS one names the single evaluation whose result is never offered (the "
+            "perturbed solution's): Run.tla keeps the minimum over everything ELSE the objective function returned (per-record "
+            "minimum `smin`) and accepts the deviation only if the reported best equals that -- a best that misses any other "
+            "value (e.g. the results of the scoped local search) is a violation.",
     "technique": "TLA+ spec + TLC model checking + TLC trace validation (unit tours; step-observer traces of all template runs)",
     "design_ref": "DESIGN.md §6 C07, §4.1",
     "note": "objective values are projected to dense ranks per run (+inf distinguished)",
